@@ -263,7 +263,17 @@ func (m *Machine) visitInstr(fr *frame, instr ssa.Instruction) continuation {
 		}
 		*defers = &deferred{fn: fn, args: args, instr: instr, tail: *defers}
 
-	case *ssa.Go, *ssa.Send, *ssa.MakeChan, *ssa.Select:
+	case *ssa.Go:
+		// One legal schedule: the goroutine runs to completion where it is
+		// started (sync.WaitGroup and the locks are no-ops). A goroutine that
+		// blocks on a channel is not supported. What other schedules would
+		// do is not explored here; the native replay of sampled paths runs
+		// the real goroutines.
+		fn, args := m.prepareCall(fr, &instr.Call)
+		m.goroutines++
+		m.call(fr, instr.Pos(), fn, args)
+
+	case *ssa.Send, *ssa.MakeChan, *ssa.Select:
 		panic(pathEnd{kind: "unsupported", msg: fmt.Sprintf("concurrency instruction %T at %s", instr, m.pos(instr.Pos()))})
 
 	case *ssa.Alloc:
